@@ -46,192 +46,218 @@ def run(ck):
     R6 = ck.rule('R10.6', "idle => consistent (the part that is not C01's): a stored output change "
                  "is queued for the simulator before any event delivery can fail, so that no "
                  "change is lost when an on_output event raises a non-fatal error", 'M1', 1)
-    from rules.shared import enqueue_before_anything_can_fail
-    enqueue_before_anything_can_fail(ck, R6)
+    R7 = ck.rule('R10.7', "idle => consistent: a block taken out of the work-list is evaluated in the "
+                 "same iteration (a scheduled evaluation is never dropped), and every evaluation "
+                 "follows a removal", 'M0', 3)
 
-    sl = SimLoop(ck, R1)
-    g, fi = sl.cfg, sl.fi
-    # the raising limit test
-    inst = nodes_where(g, lambda n: isinstance(n.ast, ast.Raise) and n.kinds == {'N:EdzedCircuitError'}
-                       and n.id in sl.loop_nodes or
-                       (isinstance(n.ast, ast.Raise) and n.kinds == {'N:EdzedCircuitError'}
-                        and g.dominates(sl.head, n)), kinds=('stmt',))
-    if not inst:
-        ck.ob(R1, f"{SIMULATE} :: instability raise", False,
-              "no `raise EdzedCircuitError` inside the evaluation loop: a circuit that cannot "
-              "settle would occupy the event loop forever", fi, fi.node)
-        return
-    ck.need(R1, len(inst) == 1, f"_simulate: expected one instability raise, found {len(inst)}")
-    inst = inst[0]
-    # its guarding comparison
-    test = None
-    for d in sorted(g.dominators()[inst.id], reverse=True):
-        dn = g.nodes[d]
-        if dn.kind == 'branch' and isinstance(dn.test.ast, ast.Compare) and dn.id != inst.id:
-            test = dn
-            break
-    ck.need(R1, test is not None, "_simulate: the limit comparison was not recognised")
-    cmp_ = test.test.ast
-    names = [x.id for x in walk_shallow(cmp_) if isinstance(x, ast.Name)]
-    incs = nodes_where(g, lambda n: (isinstance(n.ast, ast.AugAssign) and isinstance(n.ast.op, ast.Add)
-                                     and isinstance(n.ast.target, ast.Name) and n.ast.target.id in names)
-                       or (isinstance(n.ast, ast.Assign) and isinstance(n.ast.targets[0], ast.Name)
-                           and n.ast.targets[0].id in names and isinstance(n.ast.value, ast.BinOp)
-                           and isinstance(n.ast.value.op, ast.Add)
-                           and n.ast.targets[0].id in norm(n.ast.value)))
-    ck.need(R1, incs, "_simulate: the counter increment was not recognised")
-    counter = incs[0].ast.target.id if isinstance(incs[0].ast, ast.AugAssign) else incs[0].ast.targets[0].id
-    limit_names = [n for n in names if n != counter]
-    op = cmp_.ops[0]
-    left_is_counter = norm(cmp_.left) == counter
-    raising_when_over = (isinstance(op, (ast.Gt, ast.GtE)) and left_is_counter and test.polarity) or \
-        (isinstance(op, (ast.Lt, ast.LtE)) and not left_is_counter and test.polarity) or \
-        (isinstance(op, (ast.Lt, ast.LtE)) and left_is_counter and not test.polarity) or \
-        (isinstance(op, (ast.Gt, ast.GtE)) and not left_is_counter and not test.polarity)
-    ck.ob(R1, f"{SIMULATE} :: limit test", raising_when_over and len(cmp_.ops) == 1,
-          f"`{norm(cmp_)}` raises when the counter exceeds the limit" if raising_when_over else
-          f"`{norm(cmp_)}` does not raise for a counter above the limit", fi, test.test.ast)
-    one = all((isinstance(i.ast, ast.AugAssign) and isinstance(i.ast.value, ast.Constant)
-               and i.ast.value.value == 1) or
-              (isinstance(i.ast, ast.Assign) and any(isinstance(x, ast.Constant) and x.value == 1
-                                                     for x in walk_shallow(i.ast.value))) for i in incs)
-    # every cycle eval -> eval passes the increment and the test
-    p1 = g.path_avoiding(sl.eval, [sl.eval], avoid=incs, start_successors_only=True)
-    ck.ob(R1, f"{SIMULATE} :: every evaluation counted", p1 is None and one,
-          f"`{counter}` is incremented by 1 on every cycle that reaches eval_block()"
-          if p1 is None and one else
-          "a cycle of the loop reaches eval_block() again without counting it", fi, incs[0].ast,
-          witness=path_witness(g, p1))
-    p2 = g.path_avoiding(incs[0], [sl.eval], avoid=[test.test], start_successors_only=True)
-    p3 = g.path_avoiding(sl.head, [sl.eval], avoid=[test.test]) if True else None
-    ck.ob(R1, f"{SIMULATE} :: checked before evaluating", p2 is None and p3 is None,
-          "the limit test lies between the increment and eval_block() on every path"
-          if p2 is None and p3 is None else
-          "eval_block() can be reached without passing the limit test after the increment", fi,
-          sl.eval.ast, witness=path_witness(g, p2 or p3))
+    with ck.section('R10.6'):
+        from rules.shared import enqueue_before_anything_can_fail
+        enqueue_before_anything_can_fail(ck, R6)
 
-    # ------------------------------------------------------------------ R10.2
-    resets = nodes_where(g, lambda n: isinstance(n.ast, ast.Assign) and
-                         isinstance(n.ast.targets[0], ast.Name) and n.ast.targets[0].id == counter
-                         and n.id in sl.loop_nodes and n not in incs)
-    # local helper functions that write the counter through `nonlocal`: each call is a reset site
-    helpers = {}
-    for st_ in ast.walk(fi.node):
-        if isinstance(st_, (ast.FunctionDef, ast.AsyncFunctionDef)) and st_ is not fi.node and any(
-                isinstance(x, ast.Nonlocal) and counter in x.names for x in ast.walk(st_)):
-            w_ = [x for x in ast.walk(st_) if isinstance(x, (ast.Assign, ast.AugAssign)) and any(
-                isinstance(t, ast.Name) and t.id == counter
-                for t in (x.targets if isinstance(x, ast.Assign) else [x.target]))]
-            if w_:
-                helpers[st_.name] = w_
-    helper_calls = nodes_where(g, lambda n: n.id in sl.loop_nodes and any(
-        isinstance(c.func, ast.Name) and c.func.id in helpers for c in node_calls(n)))
-    idle = sl.idle_get()
-    ck.need(R2, len(idle) == 1, f"_simulate: expected one awaited queue.get(), found {len(idle)}")
-    okidle = sl.idle_facts(idle[0])
-    ck.ob(R2, f"{SIMULATE} :: idle point", okidle,
-          "the awaited get() is reached only with an empty work-list and an empty queue" if okidle
-          else "the simulator waits although evaluations may be pending (or the idle test is "
-          "incomplete)", fi, idle[0].ast)
-    for r in resets:
-        ok = g.dominates(idle[0], r) and isinstance(r.ast.value, ast.Constant)
-        ck.ob(R2, f"{SIMULATE} :: {norm1(r.ast)}", ok,
-              "the counter restarts only after the idle wait" if ok else
-              "the counter is reset inside a burst: feedback through events would never be "
-              "detected", fi, r.ast)
-    for r in helper_calls:
-        hname = [c.func.id for c in node_calls(r) if isinstance(c.func, ast.Name) and c.func.id in helpers][0]
-        ok = g.dominates(idle[0], r) and all(isinstance(w_, ast.Assign) and isinstance(w_.value, ast.Constant)
-                                             for w_ in helpers[hname])
-        ck.ob(R2, f"{SIMULATE} :: {norm1(r.ast)} (writes {counter} through nonlocal)", ok,
-              "the helper that restarts the counter is called only after the idle wait" if ok else
-              f"`{hname}()` writes the evaluation counter and is called inside a burst: feedback "
-              f"through events would never be detected (the simulator spins forever)", fi, r.ast)
-    ck.need(R2, resets or helper_calls, "_simulate: no counter reset inside the loop (unrecognised structure)")
-    # other writers of the counter inside the loop
-    others = nodes_where(g, lambda n: n.id in sl.loop_nodes and n not in incs and n not in resets
-                         and counter in __import__('sa.dataflow', fromlist=['node_defs']).node_defs(n))
-    ck.ob(R2, f"{SIMULATE} :: no other counter writes", not others,
-          "the counter is only incremented and reset" if not others else
-          f"the counter is also written by `{norm1(others[0].ast)}`", fi,
-          others[0].ast if others else fi.node)
+    with ck.section('R10.7'):
+        from rules.simloop import removed_implies_evaluated
+        removed_implies_evaluated(ck, R7, SimLoop(ck, R7))
 
-    # ------------------------------------------------------------------ R10.3
-    prog = ck.prog
-    mod = prog.module('simulator')
-    ck.need(R3, len(limit_names) == 1, "the limit is not a single local variable")
-    lim = limit_names[0]
-    ldefs = [n for n in g.nodes if n.kind in ('stmt', 'for', 'with', 'test') and
-             lim in __import__('sa.dataflow', fromlist=['node_defs']).node_defs(n)]
-    ok = len(ldefs) == 1 and ldefs[0].id not in sl.loop_nodes and g.dominates(ldefs[0], sl.head)
-    ck.ob(R3, f"{SIMULATE} :: limit defined once", ok,
-          f"`{lim}` has a single definition before the loop" if ok else
-          f"`{lim}` is (re)defined inside the loop or more than once", fi,
-          ldefs[0].ast if ldefs else fi.node)
-    fin = False
-    why = "unrecognised limit expression"
-    if ldefs and isinstance(ldefs[0].ast, ast.Assign):
-        v = ldefs[0].ast.value
-        if isinstance(v, ast.BinOp) and isinstance(v.op, ast.Mult):
-            sides = [v.left, v.right]
-            # a factor may be an explaining local with a single definition before the loop
-            rd10 = ck.rdefs(fi.fid, 'M0')
-            for i_, s_ in enumerate(sides):
-                if isinstance(s_, ast.Name):
-                    vals_ = rd10.value_exprs(ldefs[0], s_.id)
-                    if len(vals_) == 1 and not isinstance(vals_[0], str):
-                        sides[i_] = vals_[0]
-            lens = [s for s in sides if isinstance(s, ast.Call) and call_name(s) == 'len'
-                    and norm(s.args[0]) in ('self._blocks', 'self.getblocks()')]
-            consts = [s for s in sides if s not in lens]
-            if lens and consts:
-                try:
-                    c = fold(prog, mod, consts[0])
-                    fin = isinstance(c, int) and not isinstance(c, bool) and c >= 1
-                    why = f"{lim} = {c} * len(self._blocks)"
-                except Unfoldable as err:
-                    why = f"factor `{norm(consts[0])}` is not a foldable constant ({err})"
-            else:
-                why = f"`{norm(v)}` is not <constant> * len(self._blocks)"
-    ck.ob(R3, f"{SIMULATE} :: limit finite", fin, why, fi, ldefs[0].ast if ldefs else fi.node)
+    with ck.section('R10.1'):
 
-    # ------------------------------------------------------------------ R10.4
-    ok = len(sl.await_nodes) == 1 and sl.await_nodes[0] is idle[0]
-    ck.ob(R4, f"{SIMULATE} :: single await", ok,
-          "the idle get() is the only await of the loop" if ok else
-          f"additional await(s) inside a burst: "
-          f"{[norm1(n.ast) for n in sl.await_nodes if n is not idle[0]]}", fi,
-          sl.await_nodes[0].ast if sl.await_nodes else fi.node)
-    inner = [n for n in g.nodes if n.id in sl.loop_nodes and n is not sl.head and
-             ((n.kind == 'test' and isinstance(n.stmt, ast.While)) or n.kind == 'for')]
-    for lp in inner:
-        body_start = [g.nodes[v] for v, lab in g.succ[lp.id] if lab in ('true', 'iter')]
-        removing = nodes_where(g, lambda n: any(call_name(c) == 'get_nowait' and (isinstance(c.func, ast.Attribute) and sl.is_queue(c.func.value))
-                                                for c in node_calls(n)))
-        p = g.path_avoiding(body_start[0], [lp], avoid=removing) if body_start else None
-        test_ok = lp.kind == 'test' and any(f"{q}.empty()" in norm(lp.ast) for q in sl.queue_aliases)
-        ck.ob(R4, f"{SIMULATE} :: inner loop `{norm1(lp.ast)}`", p is None and test_ok,
-              "the drain loop removes one queue item per iteration" if p is None and test_ok else
-              "an inner loop of the burst is not the item-removing queue drain (unbounded work "
-              "inside a burst)", fi, lp.ast, witness=path_witness(g, p))
-    ck.need(R4, inner, "_simulate: queue drain loop not found")
-    nested = [f for f in prog.funcs.values() if f.parent is fi]
-    bad = [x for f in nested for x in own_nodes(f.node) if isinstance(x, (ast.While, ast.Await))]
-    ck.ob(R4, f"{SIMULATE} :: helpers bounded", not bad,
-          f"{len(nested)} nested helper(s) contain no while loop and no await" if not bad else
-          "a nested helper contains a while loop or an await", fi, bad[0] if bad else fi.node)
+        sl = SimLoop(ck, R1)
+        g, fi = sl.cfg, sl.fi
+        # the raising limit test
+        inst = nodes_where(g, lambda n: isinstance(n.ast, ast.Raise) and n.kinds == {'N:EdzedCircuitError'}
+                           and n.id in sl.loop_nodes or
+                           (isinstance(n.ast, ast.Raise) and n.kinds == {'N:EdzedCircuitError'}
+                            and g.dominates(sl.head, n)), kinds=('stmt',))
+        if not inst:
+            ck.ob(R1, f"{SIMULATE} :: instability raise", False,
+                  "no `raise EdzedCircuitError` inside the evaluation loop: a circuit that cannot "
+                  "settle would occupy the event loop forever", fi, fi.node)
+            return
+        ck.need(R1, len(inst) == 1, f"_simulate: expected one instability raise, found {len(inst)}")
+        inst = inst[0]
+        # its guarding comparison
+        test = None
+        for d in sorted(g.dominators()[inst.id], reverse=True):
+            dn = g.nodes[d]
+            if dn.kind == 'branch' and isinstance(dn.test.ast, ast.Compare) and dn.id != inst.id:
+                test = dn
+                break
+        ck.need(R1, test is not None, "_simulate: the limit comparison was not recognised")
+        cmp_ = test.test.ast
+        names = [x.id for x in walk_shallow(cmp_) if isinstance(x, ast.Name)]
+        incs = nodes_where(g, lambda n: (isinstance(n.ast, ast.AugAssign) and isinstance(n.ast.op, ast.Add)
+                                         and isinstance(n.ast.target, ast.Name) and n.ast.target.id in names)
+                           or (isinstance(n.ast, ast.Assign) and isinstance(n.ast.targets[0], ast.Name)
+                               and n.ast.targets[0].id in names and isinstance(n.ast.value, ast.BinOp)
+                               and isinstance(n.ast.value.op, ast.Add)
+                               and n.ast.targets[0].id in norm(n.ast.value)))
+        ck.need(R1, incs, "_simulate: the counter increment was not recognised")
+        counter = incs[0].ast.target.id if isinstance(incs[0].ast, ast.AugAssign) else incs[0].ast.targets[0].id
+        limit_names = [n for n in names if n != counter]
+        op = cmp_.ops[0]
+        left_is_counter = norm(cmp_.left) == counter
+        raising_when_over = (isinstance(op, (ast.Gt, ast.GtE)) and left_is_counter and test.polarity) or \
+            (isinstance(op, (ast.Lt, ast.LtE)) and not left_is_counter and test.polarity) or \
+            (isinstance(op, (ast.Lt, ast.LtE)) and left_is_counter and not test.polarity) or \
+            (isinstance(op, (ast.Gt, ast.GtE)) and not left_is_counter and not test.polarity)
+        ck.ob(R1, f"{SIMULATE} :: limit test", raising_when_over and len(cmp_.ops) == 1,
+              f"`{norm(cmp_)}` raises when the counter exceeds the limit" if raising_when_over else
+              f"`{norm(cmp_)}` does not raise for a counter above the limit", fi, test.test.ast)
+        one = all((isinstance(i.ast, ast.AugAssign) and isinstance(i.ast.value, ast.Constant)
+                   and i.ast.value.value == 1) or
+                  (isinstance(i.ast, ast.Assign) and any(isinstance(x, ast.Constant) and x.value == 1
+                                                         for x in walk_shallow(i.ast.value))) for i in incs)
+        # every cycle eval -> eval passes the increment and the test
+        p1 = None
+        for e_ in sl.eval_nodes:
+            p1 = p1 or g.path_avoiding(e_, sl.eval_nodes, avoid=incs, start_successors_only=True)
+        ck.ob(R1, f"{SIMULATE} :: every evaluation counted", p1 is None and one,
+              f"`{counter}` is incremented by 1 on every cycle that reaches eval_block()"
+              if p1 is None and one else
+              "a cycle of the loop reaches eval_block() again without counting it", fi, incs[0].ast,
+              witness=path_witness(g, p1))
+        p2 = g.path_avoiding(incs[0], sl.eval_nodes, avoid=[test.test], start_successors_only=True)
+        p3 = g.path_avoiding(sl.head, sl.eval_nodes, avoid=[test.test])
+        ck.ob(R1, f"{SIMULATE} :: checked before evaluating", p2 is None and p3 is None,
+              "the limit test lies between the increment and eval_block() on every path"
+              if p2 is None and p3 is None else
+              "eval_block() can be reached without passing the limit test after the increment", fi,
+              sl.eval.ast, witness=path_witness(g, p2 or p3))
 
-    # ------------------------------------------------------------------ R10.5
-    bad = [h for h in handlers_in(fi) if catches_broad(h) and not handler_reraises(fi, h)]
-    # the raise must not be inside a try that catches it
-    gm1 = ck.cfg(SIMULATE, 'M1')
-    inst1 = [n for n in gm1.nodes if n.kind == 'stmt' and isinstance(n.ast, ast.Raise)
-             and n.kinds == {'N:EdzedCircuitError'}]
-    direct = all(any(gm1.nodes[v].kind == 'raise' for v, _ in gm1.succ[n.id]) for n in inst1)
-    ck.ob(R5, f"{SIMULATE} :: propagates", not bad and direct and bool(inst1),
-          "the instability error leaves _simulate (and is recorded by run_forever, C09)"
-          if not bad and direct else "the instability error can be caught inside _simulate",
-          fi, inst.ast)
-    msg = norm(inst.ast.exc)
-    ck.ob(R5, f"{SIMULATE} :: error class", 'EdzedCircuitError' in msg,
-          "raises EdzedCircuitError", fi, inst.ast)
+    with ck.section('R10.2'):
+        # ------------------------------------------------------------------ R10.2
+        resets = nodes_where(g, lambda n: isinstance(n.ast, ast.Assign) and
+                             isinstance(n.ast.targets[0], ast.Name) and n.ast.targets[0].id == counter
+                             and n.id in sl.loop_nodes and n not in incs)
+        # local helper functions that write the counter through `nonlocal`: each call is a reset site
+        helpers = {}
+        for st_ in ast.walk(fi.node):
+            if isinstance(st_, (ast.FunctionDef, ast.AsyncFunctionDef)) and st_ is not fi.node and any(
+                    isinstance(x, ast.Nonlocal) and counter in x.names for x in ast.walk(st_)):
+                w_ = [x for x in ast.walk(st_) if isinstance(x, (ast.Assign, ast.AugAssign)) and any(
+                    isinstance(t, ast.Name) and t.id == counter
+                    for t in (x.targets if isinstance(x, ast.Assign) else [x.target]))]
+                if w_:
+                    helpers[st_.name] = w_
+        helper_calls = nodes_where(g, lambda n: n.id in sl.loop_nodes and any(
+            isinstance(c.func, ast.Name) and c.func.id in helpers for c in node_calls(n)))
+        idle = sl.idle_get()
+        ck.need(R2, len(idle) == 1, f"_simulate: expected one awaited queue.get(), found {len(idle)}")
+        okidle = sl.idle_facts(idle[0])
+        ck.ob(R2, f"{SIMULATE} :: idle point", okidle,
+              "the awaited get() is reached only with an empty work-list and an empty queue" if okidle
+              else "the simulator waits although evaluations may be pending (or the idle test is "
+              "incomplete)", fi, idle[0].ast)
+        for r in resets:
+            ok = g.dominates(idle[0], r) and isinstance(r.ast.value, ast.Constant)
+            ck.ob(R2, f"{SIMULATE} :: {norm1(r.ast)}", ok,
+                  "the counter restarts only after the idle wait" if ok else
+                  "the counter is reset inside a burst: feedback through events would never be "
+                  "detected", fi, r.ast)
+        for r in helper_calls:
+            hname = [c.func.id for c in node_calls(r) if isinstance(c.func, ast.Name) and c.func.id in helpers][0]
+            ok = g.dominates(idle[0], r) and all(isinstance(w_, ast.Assign) and isinstance(w_.value, ast.Constant)
+                                                 for w_ in helpers[hname])
+            ck.ob(R2, f"{SIMULATE} :: {norm1(r.ast)} (writes {counter} through nonlocal)", ok,
+                  "the helper that restarts the counter is called only after the idle wait" if ok else
+                  f"`{hname}()` writes the evaluation counter and is called inside a burst: feedback "
+                  f"through events would never be detected (the simulator spins forever)", fi, r.ast)
+        ck.need(R2, resets or helper_calls, "_simulate: no counter reset inside the loop (unrecognised structure)")
+        # other writers of the counter inside the loop
+        others = nodes_where(g, lambda n: n.id in sl.loop_nodes and n not in incs and n not in resets
+                             and counter in __import__('sa.dataflow', fromlist=['node_defs']).node_defs(n))
+        ck.ob(R2, f"{SIMULATE} :: no other counter writes", not others,
+              "the counter is only incremented and reset" if not others else
+              f"the counter is also written by `{norm1(others[0].ast)}`", fi,
+              others[0].ast if others else fi.node)
+
+    with ck.section('R10.3'):
+        # ------------------------------------------------------------------ R10.3
+        prog = ck.prog
+        mod = prog.module('simulator')
+        ck.need(R3, len(limit_names) == 1, "the limit is not a single local variable")
+        lim = limit_names[0]
+        ldefs = [n for n in g.nodes if n.kind in ('stmt', 'for', 'with', 'test') and
+                 lim in __import__('sa.dataflow', fromlist=['node_defs']).node_defs(n)]
+        ok = len(ldefs) == 1 and ldefs[0].id not in sl.loop_nodes and g.dominates(ldefs[0], sl.head)
+        ck.ob(R3, f"{SIMULATE} :: limit defined once", ok,
+              f"`{lim}` has a single definition before the loop" if ok else
+              f"`{lim}` is (re)defined inside the loop or more than once", fi,
+              ldefs[0].ast if ldefs else fi.node)
+        fin = False
+        why = "unrecognised limit expression"
+        if ldefs and isinstance(ldefs[0].ast, ast.Assign):
+            v = ldefs[0].ast.value
+            if isinstance(v, ast.BinOp) and isinstance(v.op, ast.Mult):
+                sides = [v.left, v.right]
+                # a factor may be an explaining local with a single definition before the loop
+                rd10 = ck.rdefs(fi.fid, 'M0')
+                for i_, s_ in enumerate(sides):
+                    if isinstance(s_, ast.Name):
+                        vals_ = rd10.value_exprs(ldefs[0], s_.id)
+                        if len(vals_) == 1 and not isinstance(vals_[0], str):
+                            sides[i_] = vals_[0]
+                lens = [s for s in sides if isinstance(s, ast.Call) and call_name(s) == 'len'
+                        and norm(s.args[0]) in ('self._blocks', 'self.getblocks()')]
+                consts = [s for s in sides if s not in lens]
+                if lens and consts:
+                    try:
+                        c = fold(prog, mod, consts[0])
+                        fin = isinstance(c, int) and not isinstance(c, bool) and c >= 1
+                        why = f"{lim} = {c} * len(self._blocks)"
+                    except Unfoldable as err:
+                        why = f"factor `{norm(consts[0])}` is not a foldable constant ({err})"
+                else:
+                    why = f"`{norm(v)}` is not <constant> * len(self._blocks)"
+        ck.ob(R3, f"{SIMULATE} :: limit finite", fin, why, fi, ldefs[0].ast if ldefs else fi.node)
+
+    with ck.section('R10.4'):
+        # ------------------------------------------------------------------ R10.4
+        ok = len(sl.await_nodes) == 1 and sl.await_nodes[0] is idle[0]
+        ck.ob(R4, f"{SIMULATE} :: single await", ok,
+              "the idle get() is the only await of the loop" if ok else
+              f"additional await(s) inside a burst: "
+              f"{[norm1(n.ast) for n in sl.await_nodes if n is not idle[0]]}", fi,
+              sl.await_nodes[0].ast if sl.await_nodes else fi.node)
+        inner = [n for n in g.nodes if n.id in sl.loop_nodes and n is not sl.head and
+                 ((n.kind == 'test' and isinstance(n.stmt, ast.While)) or n.kind == 'for')]
+        for lp in inner:
+            body_start = [g.nodes[v] for v, lab in g.succ[lp.id] if lab in ('true', 'iter')]
+            removing = nodes_where(g, lambda n: any(call_name(c) == 'get_nowait' and (isinstance(c.func, ast.Attribute) and sl.is_queue(c.func.value))
+                                                    for c in node_calls(n)))
+            p = g.path_avoiding(body_start[0], [lp], avoid=removing) if body_start else None
+            test_ok = lp.kind == 'test' and any(f"{q}.empty()" in norm(lp.ast) for q in sl.queue_aliases)
+            # ... or an evaluation loop: every cycle passes the counter increment and the limit test
+            pc = g.path_avoiding(body_start[0], [lp], avoid=incs) if body_start else None
+            pt = g.path_avoiding(body_start[0], [lp], avoid=[test.test]) if body_start else None
+            counted = bool(body_start) and pc is None and pt is None
+            if counted and not (p is None and test_ok):
+                ck.ob(R4, f"{SIMULATE} :: inner loop `{norm1(lp.ast)}`", True,
+                      "every cycle of this inner loop passes the counter increment and the limit test "
+                      "(bounded by the instability limit)", fi, lp.ast)
+                continue
+            ck.ob(R4, f"{SIMULATE} :: inner loop `{norm1(lp.ast)}`", p is None and test_ok,
+                  "the drain loop removes one queue item per iteration" if p is None and test_ok else
+                  "an inner loop of the burst is not the item-removing queue drain (unbounded work "
+                  "inside a burst)", fi, lp.ast, witness=path_witness(g, p))
+        ck.need(R4, inner, "_simulate: queue drain loop not found")
+        nested = [f for f in prog.funcs.values() if f.parent is fi]
+        bad = [x for f in nested for x in own_nodes(f.node) if isinstance(x, (ast.While, ast.Await))]
+        ck.ob(R4, f"{SIMULATE} :: helpers bounded", not bad,
+              f"{len(nested)} nested helper(s) contain no while loop and no await" if not bad else
+              "a nested helper contains a while loop or an await", fi, bad[0] if bad else fi.node)
+
+    with ck.section('R10.5'):
+        # ------------------------------------------------------------------ R10.5
+        bad = [h for h in handlers_in(fi) if catches_broad(h) and not handler_reraises(fi, h)]
+        # the raise must not be inside a try that catches it
+        gm1 = ck.cfg(SIMULATE, 'M1')
+        inst1 = [n for n in gm1.nodes if n.kind == 'stmt' and isinstance(n.ast, ast.Raise)
+                 and n.kinds == {'N:EdzedCircuitError'}]
+        direct = all(any(gm1.nodes[v].kind == 'raise' for v, _ in gm1.succ[n.id]) for n in inst1)
+        ck.ob(R5, f"{SIMULATE} :: propagates", not bad and direct and bool(inst1),
+              "the instability error leaves _simulate (and is recorded by run_forever, C09)"
+              if not bad and direct else "the instability error can be caught inside _simulate",
+              fi, inst.ast)
+        msg = norm(inst.ast.exc)
+        ck.ob(R5, f"{SIMULATE} :: error class", 'EdzedCircuitError' in msg,
+              "raises EdzedCircuitError", fi, inst.ast)
